@@ -185,6 +185,23 @@ def log_handler(x: int) -> int:
     return x
 
 
+def log_force(x: int) -> int:
+    logging.basicConfig(level=logging.DEBUG, force=True)
+    return x
+
+
+def log_clear(x: int) -> int:
+    logging.getLogger().handlers.clear()
+    return x
+
+
+def log_remove(x: int) -> int:
+    root = logging.getLogger()
+    for h in list(root.handlers):
+        root.removeHandler(h)
+    return x
+
+
 def log_shutdown(x: int) -> int:
     logging.shutdown()
     return x
@@ -319,6 +336,7 @@ TAGS = {
     "close_stdin": "sys.stdin.close", "close_real_stdout": "sys.__stdout__.close", "log_disable": "logging.disable",
     "log_basic": "logging.basicConfig", "log_level": "logging.root.setLevel", "log_handler": "logging.root.addHandler",
     "log_shutdown": "logging.shutdown", "log_emit": "logging.error", "log_query": "logging.isEnabledFor",
+    "log_force": "logging.basicConfig(force=True)", "log_clear": "logging.root.handlers.clear", "log_remove": "logging.root.removeHandler",
     "seed1": "random.seed", "draw": "random.random", "draw_many": "random.randint", "own_random": "random.Random()",
     "inst_seeded": "Random(seed).module-level", "inst_unseeded": "Random().module-level", "inst_lazy": "Random().lazy-global",
     "inst_lazy_seeded": "Random(seed).lazy-global", "inst_class_attr": "Random(seed).class-attribute",
@@ -339,6 +357,8 @@ EFFECT_CLASS = {
     "sys.__stdout__.close": "effect:close-stream", "logging.disable": "effect:logging.disable",
     "logging.basicConfig": "effect:logging.config", "logging.root.setLevel": "effect:logging.config",
     "logging.root.addHandler": "effect:logging.config", "logging.shutdown": "effect:logging.config",
+    "logging.basicConfig(force=True)": "effect:logging.remove-handler", "logging.root.handlers.clear": "effect:logging.remove-handler",
+    "logging.root.removeHandler": "effect:logging.remove-handler",
     "logging.error": "effect:logging.use", "logging.isEnabledFor": "effect:logging.use", "random.seed": "effect:random.seed",
     "random.random": "effect:random.draw", "random.randint": "effect:random.draw", "random.Random()": "effect:random.draw",
     "timeout": "effect:timeout", "pure": "effect:none",
@@ -396,7 +416,7 @@ def floors(tier):
             "snapshot": 700 * k,
             "order:compared": 500 * k,
             "effect:print": 20, "effect:raise": 20, "effect:close-fd": 20, "effect:replace-stream": 10,
-            "effect:close-stream": 10, "effect:logging.disable": 10, "effect:logging.config": 10,
+            "effect:close-stream": 10, "effect:logging.disable": 10, "effect:logging.config": 10, "effect:logging.remove-handler": 6,
             "effect:random.seed": 10, "effect:random.draw": 20, "effect:timeout": 3,
             "hidden-state-exempt": 40, "factory-test": 100, "sut:random.Random-instance": 150 * k,
         },
@@ -472,6 +492,13 @@ def _run_sequence(sp, tests, max_timeout=5, per_stmt=2):
     from vlib import exech as H
 
     MON.install()
+    # Pynguin's CLI installs its own handler on the root logger (cli._setup_logging): a SUT that removes root handlers removes that one
+    import logging
+
+    if not any(getattr(h, "name", None) == "c30-own-handler" for h in logging.root.handlers):
+        own = logging.NullHandler()
+        own.set_name("c30-own-handler")
+        logging.root.addHandler(own)
     ex = TestCaseExecutor(sp, maximum_test_execution_timeout=max_timeout, test_execution_time_per_statement=per_stmt)
     ex.add_remote_observer(RemoteAssertionTraceObserver())
     from pynguin.utils import randomness
